@@ -1,3 +1,5 @@
 import EsbuildModel.Props.C07
 import EsbuildModel.Props.C18
 import EsbuildModel.Props.C19
+import EsbuildModel.Props.C03
+import EsbuildModel.Props.C14
